@@ -241,3 +241,40 @@ def gen_impl(root, struct, inode_ty, handle_ty, notes, generics=''):
         L.append(sig + ' { unimplemented!() }')
     L.append('}')
     return '\n'.join(L)
+
+
+def gen_forward_impl_header(root, notes, server=True):
+    """`impl<FS: FileSystem> FileSystem for Arc<FS> {` with every spec function defined as the inner object's: the trait
+    contract of each method then says exactly "forwards to the same operation of the inner filesystem with the same arguments"."""
+    ms = parse_methods(root)
+    L = ['impl<FS: FileSystem> FileSystem for Arc<FS> {', '    type Inode = FS::Inode;', '    type Handle = FS::Handle;',
+         '    open spec fn touch_ok(&self) -> bool { (**self).touch_ok() }',
+         '    open spec fn ids_ok(&self, uid: u32, gid: u32) -> bool { (**self).ids_ok(uid, gid) }']
+    if server:
+        L.append('    open spec fn res_read_data(&self) -> Seq<u8> { (**self).res_read_data() }')
+    seen = set()
+    names = []
+    for m in ms:
+        if m['name'] in OMIT:
+            continue
+        sargs, anames = [], []
+        mut_ctx = False
+        for (n, t) in m['params']:
+            st, se, et, g = spec_of(n, t)
+            if t == '&mut Context':
+                mut_ctx = True
+            if st is not None:
+                sargs.append('%s: %s' % (n, st))
+                anames.append(n)
+        name = m['name']
+        names.append(name)
+        L.append('    open spec fn allowed_%s(&self%s) -> bool { (**self).allowed_%s(%s) }' % (name, ''.join(', ' + a for a in sargs), name, ', '.join(anames)))
+        ret = m['ret']
+        if ret:
+            rf = resfn(ret, name)
+            if rf not in seen:
+                seen.add(rf)
+                L.append('    open spec fn %s(&self) -> %s { (**self).%s() }' % (rf, ret.replace("IoctlData<'_>", 'IoctlRes'), rf))
+        if mut_ctx:
+            L.append('    open spec fn ctx_%s(&self) -> Context { (**self).ctx_%s() }' % (name, name))
+    return '\n'.join(L), names
